@@ -260,6 +260,9 @@ def h_scalar_types(env, cls):
                 except Exception as e:          # noqa
                     bad.append((on, type(s_).__name__, f"{type(e).__name__}: {e}"[:80]))
                     continue
+                for at in ATTRS:
+                    if hasattr(a, at) and getattr(r, at, None) != getattr(a, at):
+                        bad.append((on, type(s_).__name__, f"attribute {at} of the result: {getattr(r, at, None)!r} != {getattr(a, at)!r}"))
                 got = {k: complex(v) for k, v in r.terms.items() if abs(v) > 1e-12}
                 want = ref(t0, on, s_)
                 if set(got) != set(want) or any(abs(got[k] - want[k]) > 1e-6 for k in got):
@@ -277,6 +280,22 @@ def h_scalar_types(env, cls):
         a.terms = {words[0]: 0.5, words[1]: -1.5}
         same = [("(a + 2) - 2", lambda: (a + 2) - 2), ("1 - (1 - a)", lambda: 1 - (1 - a)), ("(a - 2.5) + 2.5", lambda: (a - 2.5) + 2.5),
                 ("a * 0. + a", lambda: a * 0. + a), ("(a * 2) / 2", lambda: (a * 2) / 2)]
+        if cls in ("H", "H3"):
+            # mapping names are case-insensitive on BOTH sides of + and ==
+            from tangelo.toolboxes.operators import QubitHamiltonian
+            utd_ = (cls == "H")
+            for left, right in (("JW", "jw"), ("jw", "JW"), ("Jw", "jW")):
+                x = QubitHamiltonian(mapping=left, up_then_down=utd_)
+                x.terms = {words[0]: 0.5}
+                y = QubitHamiltonian(mapping=right, up_then_down=utd_)
+                y.terms = {words[1]: -1.5}
+                try:
+                    z = x + y
+                    if {k: complex(v) for k, v in z.terms.items()} != {words[0]: 0.5, words[1]: -1.5}:
+                        bad.append(("+", f"{left}+{right}", "wrong value"))
+                    x += y
+                except Exception as e:          # noqa
+                    bad.append(("+", f"mapping '{left}' + mapping '{right}'", f"{type(e).__name__}: {e}"[:80]))
         for nm_, mk_ in same:
             try:
                 b_ = mk_()
@@ -689,7 +708,7 @@ def shapes(tier, seed):
     w1, w2 = all_words(1), all_words(2)
     w3 = all_words(3)
     r3 = sub("mf3")
-    for cls in ("F", "Fa", "Q", "H", "Hb"):
+    for cls in ("F", "Fa", "Q", "H", "H3", "Hb"):
         out.append(Shape(f"scalar-types/{cls}", h_scalar_types, dict(cls=cls), modules=()))
     import numpy as _np
     for (n_, k_, dt) in ((3, 130, _np.int8), (4, 300, _np.int8), (2, 40, _np.int64), (3, 200, _np.uint8)):
